@@ -257,13 +257,48 @@ package hashgraph
 //@   ensures[value] ret1 == nil ==> ret0 == RoundV(h, x)
 //@   ensures[memo]  h.roundCacheOK() && h.ssCacheOK()
 
+// Witness rule: the creator is a validator of x's round and x's round is above its self-parent's round.
+//@ ghost func WitRule(h *Hashgraph, x string, e *Event) bool { return __in(CreatorOf(e), G_pset(h.Store)[RoundV(h, x)].ByPubKey) && RoundV(h, x) > SPRound(h, e) }
+//@ ghost func (h *Hashgraph) witCacheOK() bool { return h.witnessCache != nil && (forall x string :: __in(interface{}(x), common.G_m(h.witnessCache)) ==> common.G_m(h.witnessCache)[interface{}(x)] == interface{}(WitV(h, x))) }
+
+//@ func (h *Hashgraph) _witness(x string) (bool, error)
+//@   requires h != nil && h.memoSep() && h.roundCacheOK() && h.ssCacheOK()
+//@   modifies common.G_m(h.roundCache), common.G_m(h.stronglySeeCache), G_miss(h.Store)
+//@   ensures[rule] ret1 == nil ==> __in(x, G_events(h.Store)) && ret0 == WitRule(h, x, G_events(h.Store)[x])
+//@   ensures[memo] h.roundCacheOK() && h.ssCacheOK()
+
 //@ func (h *Hashgraph) witness(x string) (bool, error)
-//@   trusted memoising wrapper around _witness (covered under C03); here only its frame is used
-//@   modifies anyghost common.m, G_miss(h.Store)
+//@   requires h != nil && h.memoSep() && h.roundCacheOK() && h.ssCacheOK() && h.witCacheOK()
+//@   assume[def] __in(x, G_events(h.Store)) ==> WitV(h, x) == WitRule(h, x, G_events(h.Store)[x])
+//@   modifies common.G_m(h.witnessCache), common.G_m(h.roundCache), common.G_m(h.stronglySeeCache), G_miss(h.Store)
+//@   ensures[value] ret1 == nil ==> ret0 == WitV(h, x)
+//@   ensures[memo]  h.roundCacheOK() && h.ssCacheOK() && h.witCacheOK()
+
+// Lamport timestamp rule: one more than the larger of the parents' timestamps (self-parent: -1 if absent; the
+// other-parent counts only if it is stored, and only when strictly larger). "Stored" is what the store's view says;
+// a store that fails to return a stored event (G_miss) is outside the rule, and the cache invariant is stated
+// for stores that never did.
+//@ ghost func SPLT(h *Hashgraph, e *Event) int { return __ite(e.Body.Parents[0] == "", -1, LTV(h, e.Body.Parents[0])) }
+//@ ghost func OPLT(h *Hashgraph, e *Event) int { return __ite(__in(e.Body.Parents[1], G_events(h.Store)), LTV(h, e.Body.Parents[1]), -2147483648) }
+//@ ghost func LTRule(h *Hashgraph, e *Event) int { return 1 + __ite(e.Body.Parents[1] != "" && OPLT(h, e) > SPLT(h, e), OPLT(h, e), SPLT(h, e)) }
+//@ ghost func (h *Hashgraph) ltCacheOK() bool { return h.timestampCache != nil && (G_miss(h.Store) || (forall x string :: __in(interface{}(x), common.G_m(h.timestampCache)) ==> common.G_m(h.timestampCache)[interface{}(x)] == interface{}(LTV(h, x)))) }
+
+//@ func (h *Hashgraph) _lamportTimestamp(x string) (int, error)
+//@   requires h != nil && h.ltCacheOK()
+//@   modifies common.G_m(h.timestampCache), G_miss(h.Store)
+//@   ensures[rule]   ret1 == nil && !G_miss(h.Store) ==> __in(x, G_events(h.Store)) && ret0 == LTRule(h, G_events(h.Store)[x])
+//@   ensures[above-self-parent]  ret1 == nil && !G_miss(h.Store) && G_events(h.Store)[x].Body.Parents[0] != "" ==> ret0 > LTV(h, G_events(h.Store)[x].Body.Parents[0])
+//@   ensures[above-other-parent] ret1 == nil && !G_miss(h.Store) && G_events(h.Store)[x].Body.Parents[1] != "" && __in(G_events(h.Store)[x].Body.Parents[1], G_events(h.Store)) ==> ret0 > LTV(h, G_events(h.Store)[x].Body.Parents[1])
+//@   ensures[memo]   h.ltCacheOK()
+//@   ensures[miss]   old(G_miss(h.Store)) ==> G_miss(h.Store)
 
 //@ func (h *Hashgraph) lamportTimestamp(x string) (int, error)
-//@   trusted memoising wrapper around _lamportTimestamp (covered under C03); here only its frame is used
-//@   modifies anyghost common.m, G_miss(h.Store)
+//@   requires h != nil && h.ltCacheOK()
+//@   assume[def] __in(x, G_events(h.Store)) ==> LTV(h, x) == LTRule(h, G_events(h.Store)[x])
+//@   modifies common.G_m(h.timestampCache), G_miss(h.Store)
+//@   ensures[value] ret1 == nil && !G_miss(h.Store) ==> ret0 == LTV(h, x)
+//@   ensures[memo]  h.ltCacheOK()
+//@   ensures[miss]  old(G_miss(h.Store)) ==> G_miss(h.Store)
 
 //@ func (h *Hashgraph) updateAncestorFirstDescendant(event *Event) error
 //@   requires h != nil && event != nil && event.lastAncestors != nil
